@@ -128,7 +128,11 @@ pub fn gen(a: &Args) -> i32 {
                     st.bump("op_txn_near_capacity");
                     // the record spans a 32 KiB block boundary of the commit log: the process dies when exactly the blocks
                     // before the last boundary have reached the file (end of file between two fragments of the record)
-                    if at.is_empty() && total >= 33000 && r.chance(2, 3) {
+                    // (a key written twice in the transaction is logged once: count what the record really holds)
+                    let mut distinct: Vec<&str> = ws.iter().map(|x| x.split('=').next().unwrap()).collect();
+                    distinct.sort();
+                    distinct.dedup();
+                    if at.is_empty() && total / parts * distinct.len() as u64 >= 33000 && r.chance(2, 3) {
                         writeln!(out, "crashtear block").unwrap();
                         st.bump("op_crashtear_at_block_boundary");
                     }
@@ -356,6 +360,10 @@ pub fn exec(a: &Args) -> i32 {
     // the last transaction lost, so the rest of the case is not comparable
     let mut untorn = false;
     let mut last_straddled = false;
+    // rotation count when the last transaction started: a rotation since then (its own, or the one its size triggered
+    // right after it) means its record is no longer the tail of the newest segment — and a background flush may already
+    // have made it durable in a table
+    let mut last_txn_rot = 0u64;
     for line in text.lines() {
         let w: Vec<&str> = line.split_whitespace().collect();
         let res = std::panic::catch_unwind(std::panic::AssertUnwindSafe(|| -> String {
@@ -384,6 +392,9 @@ pub fn exec(a: &Args) -> i32 {
                 *ARM.lock().unwrap() = Some(Arm { target: i, count: 0, src: dir.path().to_path_buf(), dst: imgdir.path().join("img"), taken: false });
             }
             let rot_before = ROTATIONS.load(std::sync::atomic::Ordering::SeqCst);
+            if base.starts_with("txn") {
+                last_txn_rot = rot_before;
+            }
             let r: Result<(), String> = match base {
                 "txn" | "txnbig" | "txnrot" => (|| {
                     if base == "txnrot" {
@@ -421,6 +432,16 @@ pub fn exec(a: &Args) -> i32 {
                         .unwrap_or_default();
                     segs.sort();
                     let mut torn = false;
+                    if std::env::var("SKV_DEBUG_TEAR").is_ok() {
+                        for p in &segs {
+                            eprintln!("DBG seg {:?} len={}", p.file_name(), std::fs::metadata(p).map(|m| m.len()).unwrap_or(0));
+                        }
+                        if let Ok(rd) = std::fs::read_dir(newdir.path().join("sstables")) {
+                            for e in rd.flatten() {
+                                eprintln!("DBG sst {:?} len={}", e.file_name(), e.metadata().map(|m| m.len()).unwrap_or(0));
+                            }
+                        }
+                    }
                     for p in segs.iter().rev() {
                         let len = std::fs::metadata(p).map(|m| m.len()).unwrap_or(0);
                         if at_block {
@@ -430,7 +451,9 @@ pub fn exec(a: &Args) -> i32 {
                                 let f = std::fs::OpenOptions::new().write(true).open(p).expect("open wal");
                                 f.set_len((len - 1) / 32768 * 32768).expect("truncate");
                                 torn = true;
-                                break;
+                            }
+                            if len > 0 {
+                                break; // only the newest non-empty segment holds the last record
                             }
                         } else if len > cut {
                             let f = std::fs::OpenOptions::new().write(true).open(p).expect("open wal");
@@ -448,10 +471,11 @@ pub fn exec(a: &Args) -> i32 {
                             tree = Some(nt);
                             // a batch that was logged again after a rotation (fix 3449869) has two records: tearing the
                             // tail of the newest segment removes the copy only, the transaction is still there
-                            if !torn || last_straddled {
+                            let rotated_since = ROTATIONS.load(std::sync::atomic::Ordering::SeqCst) != last_txn_rot;
+                            if !torn || last_straddled || rotated_since {
                                 untorn = true;
                             }
-                            if torn && !last_straddled { "ok".into() } else { "ok H=nothing-to-tear".into() }
+                            if torn && !last_straddled && !rotated_since { "ok".into() } else { "ok H=nothing-to-tear".into() }
                         }
                         Err(e) => format!("err:open:{}", err_name(&e)),
                     };
